@@ -24,6 +24,22 @@ def main():
         tier = "quick"
     from vf.common import Run, env_seed
 
+    if a.prop == "spec:all":
+        # developer entry: every tier-P contract, one line per contract that does not fully verify
+        from vf.common import Run as _Run
+        from vf.contracts.registry import all_specs
+        from vf.props._p import run_specs
+
+        r = _Run("P")
+        reps = run_specs(r, all_specs(), None)
+        bad = 0
+        for rep in reps:
+            nd = [o for o in rep.obligations if o["status"] != "discharged"]
+            if nd or rep.crosscheck["contract_fail"] or rep.errors:
+                bad += 1
+                print("NOT-VERIFIED", rep.spec.name(), "|", "; ".join(o["name"].split("#", 1)[1] + ":" + o["status"] for o in nd)[:300], "| concrete:", len(rep.crosscheck["contract_fail"]), "| errors:", len(rep.errors))
+        print(f"tier P: {len(reps)} contracts, {len(r.obligations)} obligations, {sum(1 for o in r.obligations if o['status'] == 'discharged')} discharged, {bad} contracts not verified, solver {r.solver_seconds:.1f}s")
+        sys.exit(1 if bad else 0)
     if a.prop.startswith("spec:"):
         # developer entry: ./check spec:vf.contracts.layers:CumulativeFinalizeLayer  (one tier-P contract, verbose)
         _, modname, clsname = a.prop.split(":")
